@@ -26,8 +26,8 @@ class Alphabet:
         self.tc = tc
         self.codes = []
         for n in names:
-            if n == 'U':
-                code = 0xdead0000
+            if n == 'U' or n.startswith('U:'):
+                code = 0xdead0000 if n == 'U' else int(n[2:], 16)
                 assert code not in tc
                 self.codes.append((n, code, False, 'ord', False))
             elif n.startswith('K:'):
@@ -177,6 +177,8 @@ ALPHABETS = {
     'A16': (['BSC_getpid', 'TRACE_DATA_EXEC'], (1, 2)),
     'FRAG': (['BSC_getpid', 'VFS_LOOKUP', 'TRACE_STRING_GLOBAL', 'TRACE_DATA_EXEC', 'U'], (1, 2)),
     'T3': (['BSC_getpid', 'TRACE_DATA_EXEC', 'U'], (1, 2, 3)),
+    # codes that share the kdebug class (7) / subclass (0x700) of the trace-domain codes without being trace-domain
+    'C7': (['BSC_getpid', 'TRACE_DATA_EXEC', 'K:TRACE_LOST_EVENTS', 'U:0x07000020'], (1, 2)),
 }
 _ALPHA = {}
 
@@ -209,15 +211,16 @@ class C04(Check):
 
     def plan(self):
         if self.tier == 'quick':
-            return [('A40', 4), ('FRAG', 3), ('T3', 3)]
-        return [('A40', 5), ('A16', 6), ('FRAG', 4), ('A48', 4), ('T3', 4)]
+            return [('A40', 4), ('FRAG', 3), ('T3', 3), ('C7', 4)]
+        return [('A40', 5), ('A16', 6), ('FRAG', 4), ('A48', 4), ('T3', 4), ('C7', 5)]
 
     def bounds(self):
         return {'spaces': [{'alphabet': a, 'symbols': len(alphabet(a).syms), 'depth': d,
                             'histories': len(alphabet(a).syms) ** d} for a, d in self.plan()]}
 
     def shards(self):
-        out = []
+        out = [('long', n, fill) for n in ((64, 600, 3000) if self.tier == 'quick' else (64, 600, 3000, 20000))
+               for fill in ('K', 'mixed', 'nested')]
         for a, d in self.plan():
             n = len(alphabet(a).syms)
             if n ** d > 5_000_000:
@@ -229,7 +232,38 @@ class C04(Check):
                     out.append((a, d, (s0,)))
         return out
 
+    def run_long(self, desc, acc):
+        """one long window: START, n records of the fill pattern, END - the window must hold all of them (a bounded backlog or a
+        threshold-triggered trim is invisible to the depth-bounded histories)."""
+        _, n, fill = desc
+        alpha = alphabet('A40')
+        sym = {(t, alpha.codes[ci][0], q): i for i, (t, ci, q) in enumerate(alpha.syms)}
+        S, E_ = sym[(1, 'BSC_getpid', 1)], sym[(1, 'BSC_getpid', 2)]
+        if fill == 'K':
+            body = [sym[(1, 'K:MACH_vm_page_release', 0)]] * n
+        elif fill == 'mixed':
+            pat = [sym[(1, 'K:MACH_vm_page_release', 0)], sym[(1, 'BSC_getuid', 0)], sym[(2, 'BSC_getpid', 1)], sym[(1, 'TRACE_DATA_EXEC', 0)],
+                   sym[(1, 'U', 3)], sym[(2, 'BSC_getpid', 2)]]
+            body = [pat[i % len(pat)] for i in range(n)]
+        else:
+            pat = [sym[(1, 'BSC_getuid', 1)], sym[(1, 'K:MACH_vm_page_release', 0)], sym[(1, 'BSC_getuid', 2)]]
+            body = [pat[i % len(pat)] for i in range(n - n % 3)]
+        hist = tuple([S] + body + [E_])
+        saved = alpha.events
+        alpha.events = [[Kevent(pos, DATA, (1, 2, 3, 4), t, alpha.codes[ci][1] | q, alpha.codes[ci][1], q) if si == hist[pos] else None
+                         for si, (t, ci, q) in enumerate(alpha.syms)] for pos in range(len(hist))]
+        try:
+            bad, emitted, matched = check_history(alpha, hist, 0, None)
+        finally:
+            alpha.events = saved
+        acc.case(nontrivial=True, transitions=len(hist), outcome=h64(('long', n, fill)))
+        if bad:
+            acc.violation('long-window:' + bad[0], {'alphabet': 'A40', 'long': [n, fill], 'history': list(hist[:3]) + ['...'] + list(hist[-2:])},
+                          {'step': bad[1], 'detail': repr(bad[2])[:300]})
+
     def run_shard(self, desc, acc):
+        if desc[0] == 'long':
+            return self.run_long(desc, acc)
         a, d, prefix = desc
         alpha = alphabet(a)
         n = len(alpha.syms)
@@ -259,6 +293,11 @@ class C04(Check):
         acc.outcomes.add(h64((a, d)))
 
     def replay(self, case):
+        if 'long' in case:
+            from mc.run import Acc
+            acc = Acc()
+            self.run_long(('long', case['long'][0], case['long'][1]), acc)
+            return [(sig, v['cases'][0][1]) for sig, v in acc.violations.items()]
         alpha = alphabet(case['alphabet'])
         bad, _, _ = check_history(alpha, tuple(case['history']), 0, None)
         return [(bad[0], {'step': bad[1], 'detail': bad[2]})] if bad else []
